@@ -29,7 +29,7 @@
 //!  * BIP-39 `words_to_seed`;
 //!  * `GenericMultiExp` is only used inside its documented assumptions
 //!    (len(exps) == len(points), 1 <= window < 62);
-//!  * panics are inconclusive.
+//!  * a panic on an in-domain input is a violation (kind "panic"), see `lib`.
 use crate::common::*;
 use ark_bls12_381::{Fq, Fq2, Fr, G1Affine, G2Affine};
 use ark_ec::AffineRepr;
